@@ -30,6 +30,8 @@ type Family struct {
 	Nontrivial func(it *Item) bool
 	// OutcomeKey: canonical outcome used to count distinct outcomes (default: hop lists without RTTs)
 	OutcomeKey func(r *Result) string
+	// NoFatalShortcut: the family's own Check judges crashes/hangs (it wants to name the culprit input)
+	NoFatalShortcut bool
 
 	mu    sync.Mutex
 	cache map[string][]Item
@@ -66,6 +68,9 @@ func (f *Family) runItem(it *Item, prefix []int, sig []uint32, trace bool) *Resu
 	return RunScns(vsched.Config{ClockDeviation: f.Clock, Prefix: prefix, PrefixSig: sig, Trace: trace}, f.scns(it)...)
 }
 
+// RunPlain executes an item once on the default schedule (used by oracles that need a reference run).
+func (f *Family) RunPlain(it *Item) *Result { return f.runItem(it, nil, nil, false) }
+
 func (f *Family) Run(tier string, idx int, r *core.ScnResult) {
 	items := f.items(tier)
 	it := &items[idx]
@@ -89,7 +94,7 @@ func (f *Family) Run(tier string, idx int, r *core.ScnResult) {
 			return false
 		}
 		var issues []Issue
-		if fi := Fatal(last); fi != nil {
+		if fi := Fatal(last); fi != nil && !f.NoFatalShortcut {
 			issues = append(issues, *fi)
 		} else {
 			issues = f.Check(it, last)
@@ -136,7 +141,7 @@ func (f *Family) Replay(scn json.RawMessage, choices []int) (string, bool) {
 	res := f.runItem(&it, choices, nil, true)
 	s := fmt.Sprintf("class: %s\nscenario: %s\nchoices: %v\noutcome=%s steps=%d virtual=%s\n%s\nwire:\n%s", it.Class, scn, choices, res.X.Outcome, res.X.Steps, res.X.Virtual, res.Summary(), res.WireLog())
 	var issues []Issue
-	if fi := Fatal(res); fi != nil {
+	if fi := Fatal(res); fi != nil && !f.NoFatalShortcut {
 		issues = append(issues, *fi)
 	} else {
 		issues = f.Check(&it, res)
